@@ -49,6 +49,8 @@ static struct { const void *addr; int owner; } M[VS_MAX_MUTEX];
 static int NM;
 static unsigned long wait_seq, nsteps;
 static int fail_create_in;
+static int fine_mode;             /* vs_set_fine(): extra scheduling points after lock acquisition and at unlock */
+static const char TAG_LOCKED[] = "locked", TAG_UNLOCK[] = "unlock";
 
 static void die(const char *msg)
 {
@@ -143,6 +145,7 @@ void vs_reset(void)
 	NM = 0;
 	wait_seq = 0;
 	fail_create_in = 0;
+	fine_mode = 0;
 	if (!ctl_init) {
 		/* every hand-over is a futex wake-up of another thread: an order of magnitude faster when all
 		   threads share one CPU (threads created later inherit the mask).  VS_CPU=<n> picks the CPU,
@@ -216,6 +219,23 @@ int vs_mutexes_held(void)
 	int i, n = 0;
 	for (i = 0; i < NM; ++i)
 		n += M[i].owner >= 0;
+	return n;
+}
+
+void vs_set_fine(int on) { fine_mode = on; }
+
+int vs_fine_point(int tid)
+{
+	if (tid < 0 || tid >= NT || T[tid].kind != VS_YIELD)
+		return 0;
+	return T[tid].tag == TAG_LOCKED ? 1 : T[tid].tag == TAG_UNLOCK ? 2 : 0;
+}
+
+int vs_mutexes_held_coarse(void)
+{
+	int i, n = 0;
+	for (i = 0; i < NM; ++i)
+		n += M[i].owner >= 0 && vs_fine_point(M[i].owner) != 1;
 	return n;
 }
 
@@ -312,6 +332,8 @@ int vs_mutex_lock(pthread_mutex_t *m)
 	if (M[i].owner >= 0)
 		die("scheduler resumed a lock on a held mutex");
 	M[i].owner = self_tid;
+	if (fine_mode)
+		block(VS_YIELD, m, TAG_LOCKED);  /* holding the mutex: only lock-free code of other threads can run */
 	return 0;
 }
 
@@ -330,6 +352,8 @@ int vs_mutex_unlock(pthread_mutex_t *m)
 	if (M[i].owner != self_tid)
 		die("pthread_mutex_unlock by a thread that does not own the mutex");
 	M[i].owner = -1;
+	if (fine_mode && self_tid >= 0)
+		block(VS_YIELD, m, TAG_UNLOCK);  /* the window between unlock and the thread's next blocking point */
 	return 0;
 }
 
@@ -368,6 +392,8 @@ int vs_cond_wait(pthread_cond_t *c, pthread_mutex_t *m)
 	if (M[i].owner >= 0)
 		die("scheduler resumed a cond wait on a held mutex");
 	M[i].owner = self_tid;
+	if (fine_mode)
+		block(VS_YIELD, m, TAG_LOCKED);
 	return 0;
 }
 
